@@ -581,9 +581,11 @@ func (w *world) issue(t *txn, deadlineMs int) {
 			}
 		}
 	}()
+	// Wait until the call has reached the engine, and for nothing else: a call with a
+	// short deadline may return before its goroutine inside Registry.Begin has even
+	// been scheduled, and that goroutine must not pick up the record of a later call.
 	select {
 	case <-rec.entered:
-	case <-call.done:
 	case <-time.After(infraBound):
 		panic("begin call never reached the engine")
 	}
